@@ -21,8 +21,8 @@ P = {
  "C10": ("std::vector model of the plan through the Plan API + slot-map model of TaskListT for every capacity 1..255 (rapidcheck) + link probe", "4.C10", "Model-based: every append/remove/clear/firing/outcome is mirrored in a vector and compared at every observation; TaskListT exercised directly for all capacities."),
  "C11": ("history == survivor; hostile replica driven only by replay stays in lock-step (rapidcheck + libFuzzer)", "4.C11", "Authority histories with multi-round vetoes; a second instance with cancelling/redirecting guards is fed previousTransition().destination after every step."),
  "C12": ("save/load round trip over generated (saver, loader) histories + exhaustive (k, j) sweep for state counts up to 255", "4.C12", "Generated pairs on the zoo plus an exhaustive sweep over all (saver index, loader index or inactive) for the built sizes; canaries, canonicity, minimal callbacks."),
- "C13": ("bit-vector reference model for generated field sequences, all capacities 1..255 x widths 1..32; bitWidth over boundary+random (quick) / all 2^32 (thorough)", "4.C13", "Round-trip and differential against a one-bool-per-bit model after every write; exhaustive in capacity, generated in cursor/widths/values."),
- "C14": ("sizes harness: compile-time ids + seed-generated walks over every k for N in boundary set (quick) / every N 1..255 (thorough); zoo pass: every callback ran on access<T>()", "4.C14", "Exhaustive in (N, k) for the sizes built; after every step only the requested state's callbacks ran and access<T>() is that object."),
+ "C13": ("bit-vector reference model for generated field sequences, all capacities 1..255 x widths 1..32; bitWidth over boundary+random (quick) / all 2^32 (thorough); a generated sequence that does not return (per-sequence watchdog, confirmed 3x by replay) is a failed round-trip", "4.C13", "Round-trip and differential against a one-bool-per-bit model after every write; exhaustive in capacity, generated in cursor/widths/values."),
+ "C14": ("sizes harness: compile-time ids + seed-generated walks (immediateChangeTo / changeTo+update / replayTransition) over every k for N in boundary set (quick) / every N 1..255 (thorough); zoo pass: every callback ran on access<T>()", "4.C14", "Exhaustive in (N, k) for the sizes built; after every step only the requested state's callbacks ran and access<T>() is that object."),
  "C15": ("exactly-once + stated order per delivery for k = 0..3 injections (rapidcheck + libFuzzer)", "4.C15", "Every delivery block in every generated history is checked for exactly-once and for the stated forward / reverse order."),
  "C16": ("record<->delivery/action bijection within logging builds; digest equality across logger attach states (rapidcheck, FS_ALL and FS_VERBOSE)", "4.C16", "Logger events are interleaved into the trace; each action must be followed by its record, each record by its delivery; the same case is re-run with the logger never / always attached and digests compared."),
  "C17": ("digest equality across 3 memory fills; fork-and-compare copy vs original (rapidcheck + sanitizer replay + libFuzzer)", "4.C17", "Metamorphic: fill pattern must not matter; a copy taken at a generated point must answer the remaining history exactly like the original and leave it untouched."),
